@@ -167,7 +167,7 @@ Definition exp_sink_cases : list (string * string) :=
    ("template.HTML", "bb.Write(unsafeGetBytes(string(t)))");
    ("HTMLer", "bb.Write(unsafeGetBytes(string(t.HTML())))");
    ("uint,uint8,uint16,uint32,uint64,int,int8,int16,int32,int64,float32,float64", "bb.Write(unsafeGetBytes(fmt.Sprint(t)))");
-   ("fmt.Stringer", "bb.Write(unsafeGetBytes(t.String()))");
+   ("fmt.Stringer", "bb.Write(unsafeGetBytes(template.HTMLEscapeString(t.String())))");
    ("[]string", "for _, ii := range t { c.write(bb, ii) }");
    ("[]interface{}", "for _, ii := range t { c.write(bb, ii) }");
    ("returnObject", "for _, ii := range t.Value { c.write(bb, ii) }")].
@@ -270,9 +270,9 @@ Definition exp_ranger_next : list (string * string) :=
   [("helpers/iterators/range.go", "if r.pos < r.end { r.pos++ return r.pos }; return nil");
    ("iterators.go", "if r.pos < r.end { r.pos++ return r.pos }; return nil")].
 
-Definition exp_groupby_src_a : string := "if size <= 0 { return nil, ERR() }; u := reflect.Indirect(reflect.ValueOf(underlying)); group := []reflect.Value{}; switch u.Kind() { case reflect.Array, reflect.Slice: if u.Len() == size { return &groupBy{ group: []reflect.Value{u}, }, nil } groupSize := u.Len() / size if u.Len()%size != 0 { groupSize++ } pos := 0 for pos < u.Len() { e := pos + groupSize if e > u.Len() { e = u.Len() } group = append(group, u.Slice(pos, e)) pos += groupSize } default: return nil, ERR(, underlying) }; g := &groupBy{ group: group, }; return g, nil".
+Definition exp_groupby_src_a : string := "if size <= 0 { return nil, ERR() }; u := reflect.Indirect(reflect.ValueOf(underlying)); group := []reflect.Value{}; switch u.Kind() { case reflect.Array, reflect.Slice: if u.Kind() == reflect.Array && !u.CanAddr() { a := reflect.New(u.Type()).Elem() a.Set(u) u = a } if u.Len() == size { return &groupBy{ group: []reflect.Value{u}, }, nil } groupSize := u.Len() / size if u.Len()%size != 0 { groupSize++ } pos := 0 for pos < u.Len() { e := pos + groupSize if e > u.Len() { e = u.Len() } group = append(group, u.Slice(pos, e)) pos += groupSize } default: return nil, ERR(, underlying) }; g := &groupBy{ group: group, }; return g, nil".
 
-Definition exp_groupby_src_b : string := "if size <= 0 { return nil, ERR() }; u := reflect.Indirect(reflect.ValueOf(underlying)); group := []reflect.Value{}; switch u.Kind() { case reflect.Array, reflect.Slice: if u.Len() == size { return &groupBy{ group: []reflect.Value{u}, }, nil } groupSize := u.Len() / size if u.Len()%size != 0 { groupSize++ } pos := 0 for pos < u.Len() { e := pos + groupSize if e > u.Len() { e = u.Len() } group = append(group, u.Slice(pos, e)) pos += groupSize } default: return nil, ERR(, underlying) }; g := &groupBy{ group: group, }; return g, nil".
+Definition exp_groupby_src_b : string := "if size <= 0 { return nil, ERR() }; u := reflect.Indirect(reflect.ValueOf(underlying)); group := []reflect.Value{}; switch u.Kind() { case reflect.Array, reflect.Slice: if u.Kind() == reflect.Array && !u.CanAddr() { a := reflect.New(u.Type()).Elem() a.Set(u) u = a } if u.Len() == size { return &groupBy{ group: []reflect.Value{u}, }, nil } groupSize := u.Len() / size if u.Len()%size != 0 { groupSize++ } pos := 0 for pos < u.Len() { e := pos + groupSize if e > u.Len() { e = u.Len() } group = append(group, u.Slice(pos, e)) pos += groupSize } default: return nil, ERR(, underlying) }; g := &groupBy{ group: group, }; return g, nil".
 
 (* C13: the cache and the template life cycle, as model/Cache.v transcribes them *)
 Definition exp_body_plush_Parse : list string := ["if !CacheEnabled { return NewTemplate(input) }";
